@@ -348,7 +348,9 @@ func runFD02(p *Prog, r *RuleRun) {
 				}
 				return ""
 			}),
-			inRange:      func(a map[string]int64) bool { return a["idx"] >= a["Base"] && a["idx"] >= a["Min"] && a["idx"] <= a["Last"] },
+			inRange: func(a map[string]int64) bool {
+				return a["idx"] >= a["Base"] && a["idx"] >= a["Min"] && a["idx"] <= a["Last"]
+			},
 			requireFound: func(a map[string]int64) bool { return true },
 			what:         "tail [max(BaseIndex,MinIndex), committed index]"})
 	}
